@@ -216,11 +216,16 @@ def main(tier, replay=None):
         ncases = [rp["case"]]
     elif not rp:
         r = vlib.case_rng(chk.seed, PID, "names")
+        owners = {}
+        for _, entries in langs:
+            for e in set(x.lower() for x in entries):
+                owners[e] = owners.get(e, 0) + 1
         pick = [l for l in langs if len(l[1]) >= 2]
         r.shuffle(pick)
         must = [l for l in langs if l[0] in ("CMake", "Makefile", "Dockerfile", "Rust", "Python", "JSON", "Git Config", "Ruby", "TOML")]
         for lang, entries in (must + pick)[: (40 if tier == "quick" else 400)]:
-            es = [e for e in entries if re.match(r"^[A-Za-z0-9_.+-]+$", e)]
+            # entries listed under a single language only (an entry shared by two languages belongs to one of them)
+            es = [e for e in entries if re.match(r"^[A-Za-z0-9_.+-]+$", e) and owners.get(e.lower(), 0) == 1]
             if len(es) < 2:
                 continue
             # an entry matches as the extension (`x.E`) or as the whole file name (`E`, when it is
@@ -228,8 +233,8 @@ def main(tier, replay=None):
             # be a whole name
             def spellings(e):
                 out = []
-                if "." not in e.strip("."):
-                    out.append("dir/x." + e.lstrip("."))
+                if "." not in e:
+                    out.append("dir/x." + e)
                 if "." in e.strip(".") or len(e) > 4:
                     out.append(e)
                 return out
@@ -240,9 +245,9 @@ def main(tier, replay=None):
                 (ea, na), (eb, nb) = r.sample(names, 2)
                 ncases.append({"lang": lang, "n1": na, "n2": nb})
             for e in [e for e in es if "." in e.strip(".")][:2]:
-                other = next((x for x in es if x != e and "." not in x.strip(".")), None)
+                other = next((x for x in es if x != e and "." not in x), None)
                 if other:
-                    ncases.append({"lang": lang, "n1": e, "n2": "dir/y." + other.lstrip(".")})
+                    ncases.append({"lang": lang, "n1": e, "n2": "dir/y." + other})
         for dl in (None, "rs", "py"):
             ncases.append({"lang": "default:" + str(dl), "n1": "zz.unknownext", "n2": "qq.otherunk", "default": dl})
             if dl:
